@@ -116,15 +116,28 @@ Proof.
 Qed.
 
 (* the clipped step length is in [0,1] for EVERY line-search value (repo commit d722144), hence for both line searches *)
-Lemma clip01_range a : 0 <= @clip01 R NumR a <= 1.
+(* spg_step_clip is the kernel regenerated from the statement `alpha = min(1.0, max(0.0, alpha)) if sBs > 0 else 1.0` *)
+Lemma spg_step_clip_range a sBs : 0 <= @spg_step_clip R NumR a sBs <= 1.
+Proof. unfold spg_step_clip. unfold_num. q2r. cbv zeta. rcases; lra. Qed.
+Lemma spg_step_clip_spec a sBs : @spg_step_clip R NumR a sBs = if Rlt_dec 0 sBs then Rmin 1 (Rmax 0 a) else 1.
 Proof.
-  unfold clip01. unfold_num. q2r. unfold Rltb. cbv zeta.
-  destruct (Rlt_dec 0 a); [destruct (Rlt_dec a 1)|destruct (Rlt_dec 0 1)]; lra.
+  unfold spg_step_clip. unfold_num. q2r. cbv zeta. unfold Rmin, Rmax.
+  destruct (Rlt_dec 0 sBs); destruct (Rle_dec 0 a); rcases; try destruct (Rle_dec 1 a); try destruct (Rle_dec 1 0); lra.
 Qed.
 Theorem spg_alpha_range nm ds sBs q qMax : 0 <= @spg_alpha R NumR nm ds sBs q qMax <= 1.
-Proof.
-  unfold spg_alpha. unfold_num. q2r. unfold Rltb. destruct (Rlt_dec 0 sBs); [apply clip01_range|lra].
-Qed.
+Proof. unfold spg_alpha. apply spg_step_clip_range. Qed.
+
+(* the list model's component operation `clamp` IS the regenerated project kernel (np.maximum(lb, np.minimum(x, ub))) *)
+Lemma clamp_is_generated x l u : clampR x (Some l, Some u) = @project_n1 R NumR x l u.
+Proof. unfold clamp, project_n1, nmin, nmax. cbn [fst snd]. unfold_num. cbv zeta. rcases; lra. Qed.
+Lemma project_is_generated_n2 x0 x1 l0 u0 l1 u1 :
+  projectR [x0; x1] [(Some l0, Some u0); (Some l1, Some u1)] =
+  let '(a, b) := @project_n2 R NumR x0 x1 l0 u0 l1 u1 in [a; b].
+Proof. unfold project_n2. cbn [project]. unfold clamp, nmin, nmax. cbn [fst snd]. unfold_num. cbv zeta. repeat f_equal; rcases; lra. Qed.
+Lemma project_is_generated_n3 x0 x1 x2 l0 u0 l1 u1 l2 u2 :
+  projectR [x0; x1; x2] [(Some l0, Some u0); (Some l1, Some u1); (Some l2, Some u2)] =
+  let '(a, b, c) := @project_n3 R NumR x0 x1 x2 l0 u0 l1 u1 l2 u2 in [a; b; c].
+Proof. unfold project_n3. cbn [project]. unfold clamp, nmin, nmax. cbn [fst snd]. unfold_num. cbv zeta. repeat f_equal; rcases; lra. Qed.
 (* so every SPG update is a convex combination of feasible points, in both line-search modes, without any hypothesis *)
 Theorem spg_step_feasible bs xNew p nm ds sBs q qMax : in_box bs xNew -> in_box bs p ->
   in_box bs (@spg_update R NumR xNew p (@spg_alpha R NumR nm ds sBs q qMax)).
